@@ -407,6 +407,8 @@ class Evaluator:
                     return sum(args[0])
                 if f.id == "sorted" and len(args) == 1:
                     return sorted(args[0])
+                if f.id == "reversed" and len(args) == 1:
+                    return list(reversed(args[0]))
                 if f.id in ("list", "tuple", "set", "dict", "OrderedDict", "frozenset"):
                     return {"list": list, "tuple": tuple, "set": set, "dict": dict, "OrderedDict": dict, "frozenset": frozenset}[f.id](*args)
                 if f.id == "str":
